@@ -565,20 +565,38 @@ func parseLong(b []byte) lhdr {
 // rec collects the qlog events of one side (all connections of that side, in order).
 type rec struct {
 	mu  sync.Mutex
-	evs []qlogwriter.Event
+	evs []taggedEvent
 }
 
-func (r *rec) RecordEvent(ev qlogwriter.Event) { r.mu.Lock(); r.evs = append(r.evs, ev); r.mu.Unlock() }
-func (r *rec) Close() error                    { return nil }
-func (r *rec) AddProducer() qlogwriter.Recorder { return r }
-func (r *rec) SupportsSchemas(string) bool      { return true }
-func (r *rec) snapshot() []qlogwriter.Event {
+// taggedEvent: a qlog event and the connection it belongs to (the ID the Tracer callback was given: the client's
+// first destination connection ID, on both sides).
+type taggedEvent struct {
+	conn string
+	ev   qlogwriter.Event
+}
+
+type connRec struct {
+	r    *rec
+	conn string
+}
+
+func (c connRec) RecordEvent(ev qlogwriter.Event) {
+	c.r.mu.Lock()
+	c.r.evs = append(c.r.evs, taggedEvent{c.conn, ev})
+	c.r.mu.Unlock()
+}
+func (c connRec) Close() error                     { return nil }
+func (c connRec) AddProducer() qlogwriter.Recorder { return c }
+func (c connRec) SupportsSchemas(string) bool      { return true }
+func (r *rec) snapshot() []taggedEvent {
 	r.mu.Lock()
 	defer r.mu.Unlock()
-	return append([]qlogwriter.Event(nil), r.evs...)
+	return append([]taggedEvent(nil), r.evs...)
 }
 func (r *rec) tracer() func(context.Context, bool, quic.ConnectionID) qlogwriter.Trace {
-	return func(context.Context, bool, quic.ConnectionID) qlogwriter.Trace { return r }
+	return func(_ context.Context, _ bool, id quic.ConnectionID) qlogwriter.Trace {
+		return connRec{r, hex.EncodeToString(id.Bytes())}
+	}
 }
 
 type scen struct {
@@ -704,13 +722,18 @@ func firstFlightFacts(env *e2e.Env, c2sFrom, s2cFrom int) string {
 	return fmt.Sprintf("hscids=%s dcidlen=%d toklen=%d ff=%s ninit=%d minsz=%d", strings.Join(hscids, ","), dcidlen, toklen, strings.Join(ff, ","), ninit, minsz)
 }
 
-// paramFacts: the initial_source_connection_id the server received (adv) and the one the client believes it sent (own).
-func (s *scen) paramFacts(srvFrom, cliFrom int) string {
+// paramFacts: the initial_source_connection_id the server received (adv) and the one the client believes it sent
+// (own). Only events of connections that belong to THIS dial count (a late datagram of an earlier dial can make the
+// server set up a ghost connection meanwhile): those whose tracer ID is a destination connection ID of this dial.
+func (s *scen) paramFacts(srvFrom, cliFrom int, dcids map[string]bool) string {
 	pick := func(r *rec, from int, initiator qlog.Initiator) string {
 		evs := r.snapshot()
 		out := "-" // the last one: a dial that follows a Version Negotiation sets its parameters twice
-		for _, ev := range evs[min(from, len(evs)):] {
-			switch p := ev.(type) {
+		for _, te := range evs[min(from, len(evs)):] {
+			if !dcids[te.conn] {
+				continue
+			}
+			switch p := te.ev.(type) {
 			case qlog.ParametersSet:
 				if p.Initiator == initiator && !p.Restore {
 					out = "x" + hex.EncodeToString(p.InitialSourceConnectionID.Bytes())
@@ -724,6 +747,18 @@ func (s *scen) paramFacts(srvFrom, cliFrom int) string {
 		return out
 	}
 	return fmt.Sprintf("adv=%s own=%s", pick(s.slog, srvFrom, qlog.InitiatorRemote), pick(s.clog, cliFrom, qlog.InitiatorLocal))
+}
+
+// dialDCIDs: every destination connection ID the client's Initial packets of this dial carried.
+func dialDCIDs(env *e2e.Env, c2sFrom int) map[string]bool {
+	out := map[string]bool{}
+	c2s := env.Net.Datagrams(e2e.ToServer)
+	for _, d := range c2s[min(c2sFrom, len(c2s)):] {
+		if h := parseLong(d.Data); h.ok && h.initial {
+			out[hex.EncodeToString(h.dcid)] = true
+		}
+	}
+	return out
 }
 
 // oneDial dials once and, on success, moves 10 KiB each way on one bidirectional stream.
@@ -744,7 +779,7 @@ func (s *scen) oneDial(i int) string {
 		conn.CloseWithError(0, "")
 		time.Sleep(300 * time.Millisecond) // let the close reach the server before the next dial
 	}
-	return fmt.Sprintf("D[ i=%d %s %s out=%s%s ]", i, firstFlightFacts(env, c2sFrom, s2cFrom), s.paramFacts(srvFrom, cliFrom), out, extra)
+	return fmt.Sprintf("D[ i=%d %s %s out=%s%s ]", i, firstFlightFacts(env, c2sFrom, s2cFrom), s.paramFacts(srvFrom, cliFrom, dialDCIDs(env, c2sFrom)), out, extra)
 }
 
 func versionNo(v quic.Version) int {
